@@ -155,7 +155,8 @@ def audit(pid: str) -> dict:
 
 TIE_THEOREM = {"Secs": "secs_tie", "NoteDur": "noteDur_tie", "BpmDecode": "bpmDecode_tie", "BpmValid": "bpmValid_tie",
                "Nps": "nps_tie", "Anchor": "anchor_tie", "Hopo": "hopo_tie", "Scan": "scan_tie",
-               "Phrase": ["tickAdd_tie", "endTick_tie", "after_tie", "during_tie"]}
+               "Phrase": ["tickAdd_tie", "endTick_tie", "after_tie", "during_tie"],
+               "TsAt": ["tsAt_tie", "between_tie", "timeAdd_float_tie", "timeAdd_td_tie"]}
 
 
 def leaf_ties(prop, st, tier="quick") -> dict:
@@ -172,7 +173,14 @@ def leaf_ties(prop, st, tier="quick") -> dict:
             errs = re.findall(r"error: (.*)", out)
             res[X] = {"proved": False, "why": ("the dumped AST is no longer provably the hand model: " + " | ".join(e[:160] for e in errs[:2]))}
             continue
-        src = strip_comments((LEAN / "Chartparse" / "Tie" / f"{X}.lean").read_text()) + strip_comments((LEAN / "Chartparse" / "Tie" / "Common.lean").read_text())
+        tie_files, todo = [], [X, "Common"]
+        while todo:  # the tie's own file and every other Tie file it imports
+            y = todo.pop()
+            if y in tie_files:
+                continue
+            tie_files.append(y)
+            todo += re.findall(r"^import Chartparse\.Tie\.(\w+)", (LEAN / "Chartparse" / "Tie" / f"{y}.lean").read_text(), flags=re.M)
+        src = "".join(strip_comments((LEAN / "Chartparse" / "Tie" / f"{y}.lean").read_text()) for y in tie_files)
         adir = LEAN / ".audit"
         adir.mkdir(exist_ok=True)
         thms = TIE_THEOREM[X] if isinstance(TIE_THEOREM[X], list) else [TIE_THEOREM[X]]
